@@ -603,6 +603,7 @@ package jsonpatch
 // state of the pooled scanner, and memory they allocate - in particular no element of a byte slice and no map,
 // slice or raw message of a Patch that existed before the call (frame obligations, class F).
 //@ func (Patch).ApplyIndentWithOptions
+//@   callees[C01,C08] Valid, newLazyNode, nextByte, UnmarshalValid, Kind, add, remove, replace, move, test, copy, MarshalEscaped, Indent
 //@   callsite[C01,C08] add#1 add-operations-are-applied-by-add-in-patch-order: opKind(op) == "add" && arg_op == op && op == p[rangeindex + 1]
 //@   callsite[C01,C08] remove#1 remove-operations-are-applied-by-remove-in-patch-order: opKind(op) == "remove" && arg_op == op && op == p[rangeindex + 1]
 //@   callsite[C01,C08] replace#1 replace-operations-are-applied-by-replace-in-patch-order: opKind(op) == "replace" && arg_op == op && op == p[rangeindex + 1]
@@ -684,9 +685,9 @@ package jsonpatch
 //@   ensures[C02,C04,C07] result-ok: nodeOK(result) && (result.which == eAry ==> result.ary != nil) && (result.raw != nil ==> kind(val(*result.raw)) != KNull || result.which == eAry)
 
 //@ func mergeDocs
-//@   callees[C02,C07] remove, pruneNulls, set, merge
+//@   callees[C02,C05,C07] remove, pruneNulls, set, merge
 //@   callsite[C02,C07] pruneNulls#1 new-member-pruned-only-when-applying: !mergeMerge
-//@   callsite[C02,C07] remove#1 null-deletes-only-when-applying: !mergeMerge && arg_key == k
+//@   callsite[C02,C05,C07] remove#1 null-deletes-only-when-applying: !mergeMerge && arg_key == k
 //@   callsite[C02,C07] set#1 new-member-stored: arg_key == k && arg_val == v
 //@   callsite[C02] set#1 a-member-taken-over-from-the-patch-is-pruned-when-applying: !mergeMerge ==> noNilMembers(v)
 //@   callsite[C02,C07] set#2 merged-member-stored: arg_key == k
